@@ -310,7 +310,7 @@ def run_dump(out, prop, tier, seed, only_slices=None, only_formulas=None):
                     v['mexit'], {p['name']: p['st'] for p in v['mproc']}, v['mfiles']))
     if only_formulas is not None:
         return
-    never = [a for a in ('DArgs', 'DCompile', 'DIndex', 'DReport', 'DExit') if out.extra.get('action_coverage', {}).get(a, 0) == 0]
+    never = [a for a in ('TNext',) if out.extra.get('action_coverage', {}).get(a, 0) == 0]       # (the trace specification's single action wraps DArgs ... DExit)
     if never and not only_slices:
         out.machinery_errors.append('actions of MibDump never taken in this run (vacuous): %s' % never)
     if not only_slices:
